@@ -128,3 +128,5 @@ pub mod context;
 mod group;
 mod nsec;
 mod utilities;
+#[cfg(feature = "verif-hooks")]
+pub mod verif_clock;
